@@ -94,4 +94,30 @@ CHECKS = {
           "random request vectors; selection, request fan-out (adr offset, sel, we, stb, dat_w, lock/cti/bte or defaults) and response fan-in (ack/err/rty/stall/dat_r of "
           "the selected subordinate only) are checked. Two open known findings (K1, K2) are probed by pinned cases and reported as KNOWN-FINDING."),
     note="Unselected subordinates keep response lines low (Wishbone rule) but drive arbitrary dat_r. Sparse windows: selection only."),
+ "C08": dict(
+    design_ref="DESIGN.md section 4, C08",
+    technique="property-based testing of arbitrary (non-behaving) initiator/target schedules on the simulated arbiter vs. an owner/bus-mux reference model",
+    text=("Generated arbiter/initiator geometries and feature subsets, 1-6 (thorough 8) initiators driving arbitrary request signals every cycle and a target driving "
+          "arbitrary responses; every cycle the shared bus, every initiator's ack/err/rty/stall and the owner (cross-checked by acknowledge routing) are compared with the model."),
+    note="Owner register is not read; it is the model's owner, validated each acknowledged cycle by the unique initiator that receives ack."),
+ "C09": dict(
+    design_ref="DESIGN.md section 4, C09",
+    technique="exhaustive transition-table extraction from the simulated arbiter (N<=6, with/without LOCK) + graph fairness check on the extracted table + property-based random schedules with a bounded-wait monitor",
+    text=("The real arbiter is driven into every owner and every (request vector, owner stb/lock, target ack) combination for N=1..6 with and without LOCK; each observed "
+          "transition must equal the round-robin rule, and the extracted graph must have no starvation cycle and at most N-1 owner changes before a waiting initiator is granted. "
+          "Random schedules (N<=8 thorough) check the same function and a bounded-wait monitor."),
+    note="Liveness is decided only through this finite reduction (as the property states) for N <= 6/7; larger N by random schedules only."),
+ "C10": dict(
+    design_ref="DESIGN.md section 4, C10",
+    technique="property-based testing of protocol-abiding initiator schedules on the simulated bridge vs. a transfer-level timing oracle; composition with the multiplexer model for real registers",
+    text=("Every CSR/Wishbone width combination and address width, transfers with all/partial/no select held until ack then next/drop-stb/drop-both, idle/cyc-only/stb-only gaps. "
+          "Variant A plays the CSR target in the testbench and checks every cycle's CSR strobes/address/data, single ack at ratio+1 and read lanes; variant B puts a real multiplexer "
+          "with multi-granule registers behind the bridge."),
+    note="Initiator is protocol-abiding (holds request until ack). Unselected read lanes are not constrained."),
+ "C15": dict(
+    design_ref="DESIGN.md section 4, C15",
+    technique="property-based testing of arbitrary bus histories on the simulated SRAM vs. a memory/ack step model, memory image read back through the simulator",
+    text=("All geometries (incl. refused), writable or not, init images; arbitrary cyc/stb/we/adr/sel/dat_w with hold/redraw per signal group; ack, read data at ack and the "
+          "memory rows (every cycle for touched rows, full image every 4 cycles) are compared with the model."),
+    note="Memory rows are read via the simulator from the Memory object listed in the SRAM's memory map."),
 }
